@@ -6,6 +6,12 @@ HERE = os.path.dirname(os.path.dirname(os.path.abspath(__file__)))
 
 # property id -> (simulator, design section, technique, level text, level note)
 BUILT = {
+    "C12": (
+        "D1", "5/C12",
+        "deterministic simulation: real reconnect combinators (init_reconnecting_stream, backoff, termination-on-error, reconnection events, error handler, forward_to) and merge driven by a seeded connection script on a paused tokio runtime; output and init-call instants compared with a script interpreter",
+        "Seeded search over connection scripts (init failure bursts reaching the backoff cap, connections with items / non-terminal / terminal errors and virtual delays, empty connections, receiver dropped mid-stream) x backoff policies, and over pairs of input streams with many simultaneous emissions for merge. Every item must appear exactly once, in order, at its exact virtual instant; one reconnecting notice per connection; init calls at initial x multiplier^k capped and reset; the stream never ends by itself; merge preserves per-input order and ends exactly when either input ends.",
+        "Trusted: the ~40-line script interpreter and tokio's paused clock. The consumer polls continuously (next init starts at the instant the previous connection ended). Policies keep initial <= max and avoid u64 overflow.",
+    ),
     "C08": (
         "E", "5/C08",
         "deterministic simulation: real MockExchange::run + real MockExecution clients issuing concurrent operations at seeded virtual instants on a paused tokio runtime (lagging consumers, dropped callers, exchange shutdown); sequential ledger model applied in the exchange's acceptance order (linearizability with known linearization point)",
